@@ -279,10 +279,11 @@ impl Kademlia {
                                 "connection established to peer but failed to open substream",
                             );
 
-                            if let PeerAction::SendFindNode(query_id) = action {
-                                self.engine.register_send_failure(query_id, peer);
-                                self.engine.register_response_failure(query_id, peer);
-                            }
+                            // The action is dropped here: fail its query for this peer, no matter
+                            // whether it was a lookup step, a `PUT_VALUE` or an `ADD_PROVIDER`.
+                            let query_id = action.query_id();
+                            self.engine.register_send_failure(query_id, peer);
+                            self.engine.register_response_failure(query_id, peer);
                         }
                     }
                 }
